@@ -793,6 +793,7 @@ static void t_enumerate(a_ctx_t *gp, int mi)
 }
 
 #include "c08_peer12.h"
+#include "c08_frag.h"
 
 static void run_group(long gi, void *unused)
 {
@@ -802,7 +803,11 @@ static void run_group(long gi, void *unused)
     if (groups[gi].ci >= 1000)
     {
         int x = groups[gi].ci - 1000;
-        if (x >= 300)
+        if (x >= 500)
+        {
+            f_run_group((x - 500) % 2, (x - 500) / 2 % 2, groups[gi].p);
+        }
+        else if (x >= 300)
         {
             v_run_group((x - 300) / 2, (x - 300) % 2);
         }
@@ -1045,6 +1050,21 @@ int main(int argc, char **argv)
         static gctx_t g;
         mx_result_t r;
         int ci, pp, v, k, o, x;
+        if (replay[0] == 'F')
+        {
+            fcase_t f;
+            mx_result_t r;
+            memset(&f, 0, sizeof(f));
+            if (sscanf(replay, "F;v=%d;t=%d;n=%d;d=%d.%d.%d.%d", &f.victim, &f.dtls10, &f.n, &f.d[0], &f.d[1], &f.d[2], &f.d[3]) != 7 || f.n < 1 || f.n > 4)
+            {
+                return 2;
+            }
+            memset(&r, 0, sizeof(r));
+            snprintf(r.desc, sizeof(r.desc), "%s", replay);
+            f_run_case(&f, &r);
+            mx_replay_print(&r);
+            return 0;
+        }
         if (replay[0] == 'V')
         {
             static v_ctx_t vg;
@@ -1138,6 +1158,16 @@ int main(int argc, char **argv)
         groups[ngroups].ci = 1000 + 200;   /* part U: post-handshake messages, per NewSessionTicket message */
         groups[ngroups].p = i;
         ngroups++;
+    }
+    /* part F: DTLS fragment scripts, one group per (victim, DTLS version, first descriptor) */
+    {
+        int v2, t2, a2;
+        for (t2 = 0; t2 < (thorough ? 2 : 1); t2++)
+            for (v2 = 0; v2 < 2; v2++)
+                for (a2 = 0; a2 < FD_N; a2++)
+                {
+                    groups[ngroups].ci = 1000 + 500 + t2 * 2 + v2; groups[ngroups].p = a2; ngroups++;
+                }
     }
     /* part V: malicious (D)TLS <= 1.2 peer after the handshake, one group per (configuration, victim) */
     for (i = 0; i < NVCFG; i++)
